@@ -1194,6 +1194,14 @@ def step2(line):
             for term in (b'\r\n', b'\n'):
                 fam['AISSentence.from_bytes(line + %r).decode()' % term] = _try(
                     lambda: canon_msg(M.AISSentence.from_bytes(args[0] + term).decode()))
+        if len(args) == 1 and not strict and not fam['decode'].startswith('ERR'):
+            # a single line may be handed to the in-memory reader as it is (bytes, or str through from_strings)
+            def one(reader):
+                got = [canon_msg(m.decode()) for m in reader]
+                return got[0] if len(got) == 1 else '%d deliveries' % len(got)
+            fam['IterMessages(line)'] = _try(lambda: one(ST.IterMessages(args[0])))
+            if 'decode(str)' in fam:
+                fam['IterMessages.from_strings(line)'] = _try(lambda: one(ST.IterMessages.from_strings(args[0].decode('utf-8'))))
         res = _family(fam)
         if not res.startswith(('ERR', 'READERS-DIFFER')):
             # the merged view of sentence and decoded message shows the decoded fields as decode() does
